@@ -411,6 +411,9 @@ impl ReceiverMemoryOracle {
 /// Constant budget for per-connection bookkeeping that is not packet data (fragment bitfields,
 /// vector growth slack): 128 bytes per window slot.
 pub const RX_BOOKKEEPING_PER_SLOT: i64 = 128;
+/// ... plus a constant for structures that do not scale with the window (vector growth slack,
+/// per-connection queues)
+pub const RX_BOOKKEEPING_CONST: i64 = 4096;
 pub const ACK_QUEUE_BOUND: u64 = 65_536;
 
 impl Oracle for ReceiverMemoryOracle {
@@ -441,7 +444,7 @@ impl Oracle for ReceiverMemoryOracle {
             let held = *heap_live - self.baseline.unwrap() - ack_bytes - h.tx_total_size as i64;
             self.max_held = self.max_held.max(held);
             // bitfields: one bit per claimed fragment, at most bound/1448 fragments in total
-            let slack = RX_BOOKKEEPING_PER_SLOT * (h.rx_packet_window_size.max(1) as i64) + bound / 64;
+            let slack = RX_BOOKKEEPING_CONST + RX_BOOKKEEPING_PER_SLOT * (h.rx_packet_window_size.max(1) as i64) + bound / 64;
             if held > bound + slack {
                 let d = format!("endpoint {}: holds {} heap bytes for received data (allocator measurement) with max_receive_alloc {} (rounded {}, bookkeeping budget {}); own counter says {}", ep, held, self.limit, bound, slack, h.rx_alloc);
                 return viol(prop, "receiver_memory_exceeds_limit", d, *call);
